@@ -41,8 +41,11 @@ def encapsulation(base, chk, fname):
                 m = r.ex.meta.get(v.obj)
                 bad.append((m.name if m else v.obj, getattr(v, "path", ())))
     chk.used(base.prog, fname, "effects (" + r.desc + ")")
+    if not any(p.outcome[0] == "ret" for p in r.paths) or any(p.outcome[0] == "error" for p in r.paths):
+        chk.add(Ob("%s: every path is followed to its return (effects known)" % label, "error:%s" % ([p.outcome for p in r.paths if p.outcome[0] != "ret"][:1],), 0, [fname], "effects"))
+        return
     chk.fact("%s: no result is a pointer/slice into the storage of its receiver, an argument or package state (Point coordinates stay writable only through *Point methods)" % label,
-             not bad and any(p.outcome[0] == "ret" for p in r.paths), [fname], "effects", detail=str(bad[:4]))
+             not bad, [fname], "effects", detail=str(bad[:4]))
 
 
 def run(chk):
